@@ -164,9 +164,24 @@ Expressible(hp, s) == /\ (hp = "link_title" => (IsAscii(s) /\ \A i \in 1..Len(s)
                       /\ (hp \in {"location", "content_location", "link_target", "link_anchor", "link_rel", "link_title_star"}
                             => ~LooksEscaped(s))
                       /\ (hp = "link_rel" => (\A i \in 1..Len(s) : s[i] # 32))     \* one relation type
-EncInit == /\ Init
-           /\ h \in UNION {{[helper |-> hp, s |-> s, dec |-> s] : s \in StringsOf(hp)} : hp \in EncHelpers}
-           /\ Expressible(h.helper, h.s)
+(* (enumerated with nested quantifiers: TLC walks the function sets lazily instead of building and normalising
+   one big set of records; equal concatenations collapse into one state) *)
+EncInit == /\ Init /\ sd = TRUE
+           /\ \E hp \in EncHelpers, k \in 1..EncLen : \E t \in [1..k -> PoolOf(hp)] :
+                  /\ Expressible(hp, Concat(t))
+                  /\ h = [helper |-> hp, s |-> Concat(t), dec |-> Concat(t)]
 EncNext == UNCHANGED <<vars, h>>
 EncEmit == PrintT(ToJson(h))
+(* ---- cookie-value coding: law + decision table (MC_RespHeadersCk*.cfg) --------------------------------------- *)
+(* every value of at most CkLen characters over CkAlpha: the law must hold for it, and it is exported with its
+   coded form so that the real set_cookie -> Cookie header -> req.cookies round trip is run on it *)
+CONSTANTS CkAlpha, CkLen, CkTwoPass
+CkValues == UNION {[1..k -> CkAlpha] : k \in 0..CkLen}
+CkInit == /\ Init /\ sd = TRUE
+          /\ \E k \in 0..CkLen : \E v \in [1..k -> CkAlpha] :
+                 h = [v |-> v, refused |-> CookieRefused(v), coded |-> IF CookieRefused(v) THEN <<>> ELSE CookieEncode(v)]
+CkNext == UNCHANGED <<vars, h>>
+CookieRoundTrip == h.refused \/ (IF CkTwoPass THEN CookieDecodeTwoPass(h.coded) ELSE CookieDecode(h.coded)) = h.v
+CkCodedIsAscii == \A i \in 1..Len(h.coded) : h.coded[i] >= 32 /\ h.coded[i] < 127 /\ h.coded[i] \notin {44, 59}
+CkEmit == PrintT(ToJson(h))
 ============================================================================
